@@ -1,12 +1,13 @@
 """mdspan (view) op server: layouts x index types x extents patterns x accessor kinds."""
 from vf.common import ITYPES
 from harness.gen_map import cxx_extents, KINDS, pat_str
-PATS = [(), (None,), (None, None), (None, None, None), (3, None), (None, 4), (3, 4), (2, 3, 2), (None, 3, None)]
+PATS = [(), (None,), (None, None), (None, None, None), (3, None), (None, 4), (3, 4), (2, 3, 2), (None, 3, None), (0, None), (3, 0), (None, 0, None)]
 def instances():
     out = []
     for t in ('i32', 'u8', 'i64', 'u16'):
         for pat in PATS:
-            if t in ('u8', 'u16') and pat in ((None, 4), (2, 3, 2)): continue
+            if t in ('u8', 'u16') and pat in ((None, 4), (2, 3, 2), (3, 0)): continue
+            if t != 'i32' and pat in ((0, None), (None, 0, None)): continue
             for kind, sp in (('left', None), ('right', None), ('stride', None), ('lpad', 'D'), ('rpad', 'D'), ('lpad', 4), ('rpad', 4)):
                 if kind in ('lpad', 'rpad') and t in ('u8', 'u16') and sp == 4: continue
                 for acc in ('def', 'st'): out.append((kind, sp, t, pat, acc))
